@@ -47,9 +47,9 @@ package internal
 // ---- sensor monitor actor (C09) ------------------------------------------------------------------------------
 //@ func (sensorMonitor).Run
 //@   params (s, ctx)
-//@   props C09
+//@   props C09 C03
 //@   requires sensors.sensorWF(s.sensor) && ctx != nil && configuration.CurrentConfig.TempRollingWindowSize >= 1 && configuration.CurrentConfig.TempRollingWindowSize <= 1000000000
-//@   ensures[C09.noerr] result == nil
+//@   ensures[C09.noerr C03] result == nil
 //@   modifies s.sensor.(*sensors.HwmonSensor).MovingAvg, s.sensor.(*sensors.FileSensor).MovingAvg, s.sensor.(*sensors.CmdSensor).MovingAvg, s.sensor.(*sensors.VirtualSensor).Value, lastValue, lastAvgRead, lastReadFailed, procWorld, started
 //@   loop 1 ""
 //@     invariant sensors.sensorWF(s.sensor) && ctx != nil && tick != nil
